@@ -31,7 +31,7 @@ from harness import universe as U
 PROP = "C13"
 LEAN_PROP = "PyaModel.Props.C13"
 NAMESPACE = "Pya.C13"
-LEAN_TARGETS = ["PyaModel.Core.AnnotRoutes", "PyaModel.Core.Sexp"]
+LEAN_TARGETS = ["PyaModel.Core.AnnotRoutes", "PyaModel.Core.Sexp", "PyaModel.Generated.ArgSpecCaches"]
 ANCHORS = [
     ("pyanalyze/annotations.py", "_type_from_runtime"),
     ("pyanalyze/annotations.py", "_value_of_origin_args"),
@@ -80,6 +80,92 @@ ASSUMPTIONS = [
 TRUSTED = [
     "Spec/AnnotSpec.lean tnorm / inspectOf validated against typing / inspect of the running CPython (streams typing, inspect)",
 ]
+
+# ------------------------------------------------------------------ translator: the per-Checker caches of the signature route
+CACHE_FILES = ["pyanalyze/arg_spec.py", "pyanalyze/annotations.py", "pyanalyze/functions.py"]
+_CACHE_DECOS = ("lru_cache", "cache", "cached_property", "cached_per_instance", "memoize", "cached")
+
+
+def scan_caches(repo):
+    """(file, owner.name, kind, key expressions) of every container that can outlive one function in the anchored files:
+    dict / list / set attributes created in __init__ / __post_init__ or as dataclass field(default_factory=…), module-level
+    empty containers, and functions under a caching decorator. Key expressions: the subscripts such a dict is stored under."""
+    out = []
+    for rel in CACHE_FILES:
+        tree = ast.parse(open(os.path.join(repo, rel)).read())
+
+        def kind_of(v):
+            if isinstance(v, ast.Dict) and not v.keys:
+                return "dict"
+            if isinstance(v, ast.List) and not v.elts:
+                return "list"
+            if isinstance(v, ast.Call):
+                f = v.func
+                name = f.id if isinstance(f, ast.Name) else (f.attr if isinstance(f, ast.Attribute) else "")
+                if name in ("dict", "set", "list", "defaultdict", "OrderedDict", "WeakKeyDictionary", "Counter") and not v.args:
+                    return "set" if name == "set" else ("list" if name == "list" else "dict")
+                if name == "defaultdict":
+                    return "dict"
+                if name == "field":
+                    for kw in v.keywords:
+                        if kw.arg == "default_factory" and isinstance(kw.value, ast.Name) and kw.value.id in ("dict", "set", "list"):
+                            return kw.value.id
+            return None
+
+        keys = {}
+        for n in ast.walk(tree):
+            if isinstance(n, ast.Assign):
+                for t in n.targets:
+                    if isinstance(t, ast.Subscript) and isinstance(t.value, ast.Attribute) and isinstance(t.value.value, ast.Name) \
+                            and t.value.value.id == "self":
+                        keys.setdefault(t.value.attr, set()).add(ast.unparse(t.slice))
+        found = []
+        for node in tree.body:
+            if isinstance(node, ast.ClassDef):
+                for item in node.body:
+                    if isinstance(item, ast.AnnAssign) and item.value is not None and isinstance(item.target, ast.Name):
+                        k = kind_of(item.value)
+                        if k:
+                            found.append(("%s.%s" % (node.name, item.target.id), k))
+                    if isinstance(item, ast.FunctionDef) and item.name in ("__init__", "__post_init__"):
+                        for st in ast.walk(item):
+                            if isinstance(st, (ast.Assign, ast.AnnAssign)):
+                                tg = st.targets[0] if isinstance(st, ast.Assign) else st.target
+                                if isinstance(tg, ast.Attribute) and isinstance(tg.value, ast.Name) and tg.value.id == "self" \
+                                        and st.value is not None:
+                                    k = kind_of(st.value)
+                                    if k:
+                                        found.append(("%s.%s" % (node.name, tg.attr), k))
+            if isinstance(node, (ast.Assign, ast.AnnAssign)):
+                tg = node.targets[0] if isinstance(node, ast.Assign) else node.target
+                if isinstance(tg, ast.Name) and node.value is not None and kind_of(node.value):
+                    found.append(("<module>.%s" % tg.id, kind_of(node.value)))
+        for n in ast.walk(tree):
+            if isinstance(n, (ast.FunctionDef, ast.AsyncFunctionDef)):
+                for d in n.decorator_list:
+                    f = d.func if isinstance(d, ast.Call) else d
+                    name = f.id if isinstance(f, ast.Name) else (f.attr if isinstance(f, ast.Attribute) else "")
+                    if name in _CACHE_DECOS:
+                        found.append((n.name, "decorator:" + name))
+        for owner, k in sorted(set(found)):
+            attr = owner.split(".")[-1]
+            out.append((rel, owner, k, "|".join(sorted(keys.get(attr, ()))) if k == "dict" else ""))
+    return out
+
+
+def translate(ctx):
+    """Regenerate Generated/ArgSpecCaches.lean from the tree under check (obligation argspec_caches_registered)."""
+    repo = os.environ.get("VERIF_REPO", "/repo")
+    rows = scan_caches(repo)
+    q = lambda x: '"' + x.replace("\\", "\\\\").replace('"', '\\"') + '"'
+    body = ",\n  ".join("(%s, %s, %s, %s)" % tuple(q(x) for x in r) for r in rows)
+    text = ("/-! GENERATED by harness/props/c13.py (translate) from the live tree on every run. Do not edit.\n"
+            "Every container of pyanalyze/arg_spec.py, annotations.py, functions.py that can outlive one function: (file, owner.name, kind,\n"
+            "key expressions it is stored under). -/\nnamespace Pya.C13\n\n"
+            "def argspecCaches : List (String × String × String × String) := [\n  %s]\n\nend Pya.C13\n" % body)
+    lean.write_if_changed(os.path.join(lean.LEAN, "PyaModel", "Generated", "ArgSpecCaches.lean"), text)
+    ctx.extra["argspec_caches"] = rows
+
 
 # ------------------------------------------------------------------ universe
 C = G.C
@@ -518,12 +604,18 @@ EXTRA = [
     "Dict[str, TV]", "Tuple[TV, ...]", "Type[TV]", "Callable[[TV], TV]", "TVB", "Sequence[TVB]", "Callable[P, int]", "LiteralString", "NoReturn",
     "Never", "Iterator[int]", "Generator[int, None, str]", "Awaitable[int]", "Deque[int]", "DefaultDict[str, int]", "Counter[str]",
     "Pattern[str]", "ContextManager[int]", "TypeGuard[int]", "NamedTuple", "Hashable", "Sized", "Self",
+    "Annotated[int, 'note']", "Annotated[int, 5]",
 ]
+# Annotated[...] whose metadata is a constructor call (known finding annotatedCallMeta: the AST/string route turns the call into
+# TypedValue(cls), which _make_annotated drops; the runtime object keeps the annotated_types constraint)
+EXTRA_META = ["Annotated[int, Gt(5)]", "Annotated[int, Ge(1), Lt(9)]", "Annotated[str, MaxLen(3)]", "List[Annotated[int, Gt(0)]]",
+              "Optional[Annotated[int, Gt(5)]]"]
 EXTRA_HEADER = (
     "from typing import TypedDict as _TDict, Protocol as _Proto, TypeVar as _TV, ParamSpec as _PS\n"
     "class TD(_TDict):\n    a: int\n    b: str\n"
     "class Proto(_Proto):\n    def meth(self) -> int: ...\n"
     "TV = _TV('TV')\nTVB = _TV('TVB', bound=int)\nP = _PS('P')\n"
+    "from annotated_types import Gt, Ge, Lt, MaxLen\n"
 )
 
 
@@ -1397,12 +1489,292 @@ def eval_sig(ctx, headers, with_model=True):
                           cls=dcls, conforms=conforms, stream="calls")
 
 
+# ------------------------------------------------------------------ several modules, one Checker
+# names every module of a group binds to a *different* object: a class, a NewType, a typing alias, a TypeVar (the TypeVar is
+# outside the Lean term language: implementation-side comparisons only)
+ITEM, NTX, ALIAS, TVN = 10, 11, 12, 13
+MOD_NAME_TEXT = {ITEM: "Item", NTX: "NTX", ALIAS: "Alias", TVN: "TV"}
+NAME_TEXT.update(MOD_NAME_TEXT)
+MOD_BIND = [
+    {ITEM: ("A", ("cls", A_)), NTX: ("NT0", ("nt", 0, INT)), ALIAS: ("List", ("bare", LIST)), TVN: ("_TVS[0]", None)},
+    {ITEM: ("B", ("cls", B_)), NTX: ("NT1", ("nt", 1, STR)), ALIAS: ("Dict", ("bare", DICT)), TVN: ("_TVS[1]", None)},
+    {ITEM: ("Cc", ("cls", V.CID[U.Cc])), NTX: ("NT2", ("nt", 2, A_)), ALIAS: ("Sequence", ("bare", G.SEQUENCE)), TVN: ("_TVS[2]", None)},
+]
+
+
+def mod_header(k):
+    b = MOD_BIND[k]
+    return HEADER + "from harness.common.values import TYPEVARS as _TVS\n" + \
+        "".join("%s = %s\n" % (MOD_NAME_TEXT[n], b[n][0]) for n in (ITEM, NTX, ALIAS, TVN)) + "ARGI = Item()\n"
+
+
+def mod_env_sexp(k):
+    extra = " ".join("(%d %s)" % (n, _tgt(t)) for n, (_, t) in MOD_BIND[k].items() if t is not None)
+    def layer(key):
+        return " ".join("(%d %s)" % (n["id"], _tgt(n[key])) for n in NAMES if n[key] is not None)
+    return "(env (early %s %s) (late %s %s) (builtins %s))" % (layer("early"), extra, layer("late"), extra, layer("builtin"))
+
+
+def multi_headers(rng, nrand):
+    """Headers whose annotations use the per-module names: every parameter kind x name x position of the lookup, then random."""
+    wraps = [lambda N: ("str", N), lambda N: ("str", ("opt", N)), lambda N: ("str", ("gen", True, LIST, [N])),
+             lambda N: ("gen", False, LIST, [("str", N)]), lambda N: N, lambda N: ("str", ("bor", N, ("none",)))]
+    out = []
+    for n in (ITEM, NTX, ALIAS, TVN):
+        for wi, w in enumerate(wraps):
+            a = w(("name", n))
+            for kind in (range(5) if wi == 0 else (1, 2)):
+                h = hdr()
+                arg = ("a", a)
+                if kind == 0:
+                    h["po"].append(arg)
+                elif kind == 1:
+                    h["pk"].append(arg)
+                elif kind == 2:
+                    h["vp"] = arg
+                elif kind == 3:
+                    h["ko"].append(arg)
+                    h["kd"].append(None)
+                else:
+                    h["vk"] = arg
+                out.append(h)
+            out.append(hdr(pk=[("a", a), ("b", ("str", ("name", ITEM)))], ret=a))
+    for _ in range(nrand):
+        h = random_header(rng, 1)
+        pool = [ITEM, ITEM, NTX, ALIAS, TVN]
+        def sub(arg):
+            if arg is None or rng.random() < 0.4:
+                return arg
+            n, a = arg
+            return (n, rng.choice(wraps)(("name", rng.choice(pool))))
+        h["po"] = [sub(x) for x in h["po"]]
+        h["pk"] = [sub(x) for x in h["pk"]]
+        h["ko"] = [sub(x) for x in h["ko"]]
+        h["vp"], h["vk"] = sub(h["vp"]), sub(h["vk"])
+        if rng.random() < 0.5:
+            h["ret"] = rng.choice(wraps)(("name", rng.choice(pool)))
+        out.append(h)
+    # both spellings of "the annotation is a string": quoted as written, and everything under the future import
+    return [dict(h, future=False) for h in out] + [dict(h, future=True) for h in out]
+
+
+def eval_multi(ctx, headers, with_model=True, K=2, tag=""):
+    """The same def texts in K modules that bind the annotation names to different objects; signatures of the function objects
+    asked of ONE Checker in several orders, compared with each module on a fresh Checker, with the def-node view and the model;
+    call verdicts of an importer checked by one Checker against importers checked alone."""
+    from pyanalyze.value import CallableValue
+    if ctx.scratch not in sys.path:
+        sys.path.insert(0, ctx.scratch)
+    for future in (False, True):
+        hs = [h for h in headers if h["future"] == future]
+        B = 120
+        for b0 in range(0, len(hs), B):
+            batch = hs[b0:b0 + B]
+            _MODCOUNT[0] += 1
+            fut = "from __future__ import annotations\n" if future else ""
+            names = ["c13m_%d_%d_%d" % (os.getpid(), _MODCOUNT[0], k) for k in range(K)]
+            # defs valid in every module of the group
+            okj, defs = [], []
+            for j, h in enumerate(batch):
+                try:
+                    src = render_def(h, "f%d" % j)
+                    for k in range(K):
+                        exec(fut + mod_header(k) + src + "\n", {"__name__": "c13probe"})
+                except Exception:
+                    ctx.count(1, multi_invalid=1)
+                    continue
+                okj.append(j)
+                defs.append(src)
+            if not okj:
+                continue
+            mods = []
+            for k in range(K):
+                with open(os.path.join(ctx.scratch, names[k] + ".py"), "w") as f:
+                    f.write(fut + mod_header(k) + "\n".join(defs) + "\n" + FOOTER)
+            importlib.invalidate_caches()
+            mods = [importlib.import_module(n) for n in names]
+
+            def sigs_of(checker, k):
+                out = {}
+                for j in okj:
+                    try:
+                        out[j] = norm_exc(sig_string(checker.arg_spec_cache.get_argspec(getattr(mods[k], "f%d" % j))))
+                    except Exception as e:
+                        out[j] = "EXC"
+                return out
+
+            alone = [sigs_of(pya.make_checker(), k) for k in range(K)]
+            orders = [list(range(K)), list(range(K))[::-1]]
+            if K > 2:
+                orders.append([1, 2, 0])
+            for order in orders:
+                chk = pya.make_checker()
+                for k in order:
+                    got = sigs_of(chk, k)
+                    for j in okj:
+                        ctx.corr("multi_history")
+                        if got[j] != alone[k][j]:
+                            ctx.candidate({"def": defs[okj.index(j)], "future": future, "header": batch[j], "module": k,
+                                           "order": order, "bindings": {MOD_NAME_TEXT[n]: MOD_BIND[k][n][0] for n in MOD_BIND[k]}},
+                                          "the signature of the function object depends on what the Checker was asked before: module %d "
+                                          "checked alone %s; after module(s) %s with the same Checker %s"
+                                          % (k, alone[k][j], order[:order.index(k)], got[j]), cls=None, conforms=False, stream="multi")
+            # one Checker, requests interleaved function by function
+            chk = pya.make_checker()
+            for j in okj:
+                for k in range(K):
+                    try:
+                        got = norm_exc(sig_string(chk.arg_spec_cache.get_argspec(getattr(mods[k], "f%d" % j))))
+                    except Exception:
+                        got = "EXC"
+                    ctx.corr("multi_history")
+                    if got != alone[k][j]:
+                        ctx.candidate({"def": defs[okj.index(j)], "future": future, "header": batch[j], "module": k, "order": "interleaved"},
+                                      "the signature of the function object depends on what the Checker was asked before: module %d "
+                                      "alone %s; interleaved with the other module(s) %s" % (k, alone[k][j], got),
+                                      cls=None, conforms=False, stream="multi")
+            # the def-node view of each module (nested defs) and the model
+            model = None
+            if with_model:
+                lines = []
+                for k in range(K):
+                    lines += ["sig %s %s" % (mod_env_sexp(k), sexp_hdr(batch[j])) for j in okj]
+                model = [parse_model(l) for l in lean.run_driver("C13", lines)]
+            for k in range(K):
+                src = (fut + mod_header(k)).split("\n")[:-1] + ["def outer():"]
+                where = {}
+                for j in okj:
+                    src.append("    " + defs[okj.index(j)])
+                    src.append("    f%d" % j)
+                    where[len(src)] = j
+                src += FOOTER.split("\n")[:-1]
+                try:
+                    fails, tree, _ = pya.check_source("\n".join(src) + "\n", annotate=True)
+                except Exception as e:
+                    continue
+                outer = [n for n in tree.body if isinstance(n, ast.FunctionDef) and n.name == "outer"][0]
+                view = {}
+                for n in outer.body:
+                    if isinstance(n, ast.Expr) and isinstance(n.value, ast.Name) and n.lineno in where:
+                        v = getattr(n.value, "inferred_value", None)
+                        view[where[n.lineno]] = sig_string(v.signature) if isinstance(v, CallableValue) else "NOCALLABLE"
+                for idx, j in enumerate(okj):
+                    h = batch[j]
+                    case = {"def": defs[idx], "future": future, "header": h, "module": k,
+                            "bindings": {MOD_NAME_TEXT[n]: MOD_BIND[k][n][0] for n in MOD_BIND[k]}}
+                    ctx.count(1, multi=1)
+                    ctx.nontriv("multi|%s|%d|%s" % (future, k, defs[idx]))
+                    idef, iinsp = norm_exc(view.get(j, "MISSING")), alone[k][j]
+                    m = model[k * len(okj) + idx] if model else None
+                    has_tv = any(_mentions(x, TVN) for x in [h["ret"]] + [a for _, a in h["po"] + h["pk"] + h["ko"]] +
+                                 [x[1] for x in (h["vp"], h["vk"]) if x])
+                    dcls, conforms = None, True
+                    if m is not None and m["D"] != "-":
+                        dcls = m["D"].split(",")[0]     # the classes are syntactic: also valid for headers using the TypeVar
+                    if m is not None and m.get("S") == "1" and not has_tv:
+                        for stream, iv, mv in (("multi_def", idef, strip_errs(m["def"])), ("multi_insp", iinsp, strip_errs(m["insp"]))):
+                            ctx.corr(stream)
+                            c = cmp_sig(iv, mv)
+                            if c not in ("eq", "order"):
+                                conforms = False
+                                if dcls is None:
+                                    ctx.disagree(stream, case, iv, mv)
+                    elif m is not None and m.get("S") != "1":
+                        continue
+                    if canon_sig(idef) != canon_sig(iinsp):
+                        ctx.candidate(case, "signature from the def node differs from the signature from the function object: def=%s inspect=%s"
+                                      % (idef, iinsp), cls=dcls, conforms=conforms, stream="multi_sig")
+            # call verdicts: one importer, one Checker, all modules  vs  one importer per module on a fresh Checker
+            def importer(ks):
+                src = HEADER.split("\n")[:-1] + ["import %s as H%d" % (names[k], k) for k in ks] + ["def run():"]
+                where = {}
+                for j in okj:
+                    for k in ks:
+                        for ci, c in enumerate(calls_for(batch[j])):
+                            if "ARGB" not in c and c != "":
+                                continue
+                            src.append("    H%d.f%d(%s)" % (k, j, c.replace("ARGB", "H%d.ARGI" % k)))
+                            where[len(src)] = (k, j, ci)
+                if not where:
+                    src.append("    pass")
+                return "\n".join(src) + "\n", where
+
+            def verdicts(ks, checker):
+                src, where = importer(ks)
+                fails, _, _ = pya.check_source(src, checker=checker)
+                bad = {v: False for v in where.values()}
+                for f in fails:
+                    if f["lineno"] in where and f["code"] in ("incompatible_call", "incompatible_argument"):
+                        bad[where[f["lineno"]]] = True
+                return bad
+
+            shared = verdicts(list(range(K)), pya.make_checker())
+            shared_rev = verdicts(list(range(K))[::-1], pya.make_checker())
+            for k in range(K):
+                single = verdicts([k], pya.make_checker())
+                for key, v in single.items():
+                    ctx.corr("multi_calls")
+                    ctx.count(1, call=1)
+                    for label, other in (("all modules", shared), ("all modules, reverse order", shared_rev)):
+                        if other[key] != v:
+                            kk, j, ci = key
+                            ctx.candidate({"def": defs[okj.index(j)], "future": future, "header": batch[j], "module": kk,
+                                           "call": "f(%s)" % calls_for(batch[j])[ci].replace("ARGB", "ARGI")},
+                                          "call %s of module %d's function from an importer: %s when the importer uses only that module, "
+                                          "%s when the same Checker also checks calls into the other module(s) (%s)"
+                                          % (calls_for(batch[j])[ci].replace("ARGB", "ARGI"), kk, "rejected" if v else "accepted",
+                                             "rejected" if other[key] else "accepted", label),
+                                          cls=None, conforms=False, stream="multi_calls")
+
+
+# ------------------------------------------------------------------ methods with __x parameters (implementation only)
+def eval_methods(ctx):
+    """Kinds of the parameters of methods from the def node (compute_parameters, recorded in-process) vs from the function
+    object, for classes whose names do / do not start with underscores (Python strips the class name's leading underscores
+    when it mangles __x; known finding mangledPrivateClass: is_positional_only_arg_name does not)."""
+    import pyanalyze.name_check_visitor as ncv
+    classes = ["Pub", "_Priv", "__Dun", "P_q", "_", "_P__q"]
+    methods = ["def m(self, __x: int) -> None: pass", "def n(self, a: int, __b: int = 0, c: int = 1) -> None: pass",
+               "def o(self, x: int, y: int = 0) -> None: pass", "def p(self, __x__: int) -> None: pass"]
+    lines, where = [], {}
+    for c in classes:
+        lines.append("class %s:" % c)
+        for m in methods:
+            lines.append("    " + m)
+            where[len(lines)] = (c, m.split("(")[0][4:])
+    rec = {}
+    orig = ncv.compute_value_of_function
+
+    def wrap(info, vctx, **kw):
+        rec[info.node.lineno] = [p.param.kind.name for p in info.params]
+        return orig(info, vctx, **kw)
+
+    ncv.compute_value_of_function = wrap
+    try:
+        _, _, mod = pya.check_source("\n".join(lines) + "\n")
+    finally:
+        ncv.compute_value_of_function = orig
+    checker = pya.make_checker()
+    for ln, (c, m) in where.items():
+        fn = getattr(getattr(mod, c), m)
+        sig = checker.arg_spec_cache.get_argspec(fn)
+        obj = [p.kind.name for p in sig.parameters.values()]
+        ctx.count(1, method=1)
+        ctx.corr("methods")
+        if rec.get(ln) != obj:
+            mangles = c.startswith("_")   # incl. a name of only underscores (not mangled at all, yet the prefix is stripped)
+            ctx.candidate({"class": c, "def": lines[ln - 1].strip()},
+                          "parameter kinds of %s.%s: %s from the def node, %s from the function object (parameter names %s)"
+                          % (c, m, rec.get(ln), obj, list(sig.parameters)),
+                          cls="mangledPrivateClass" if mangles else None, conforms=True, stream="methods")
+
+
 # ------------------------------------------------------------------ extra vocabulary: implementation only
 def eval_extra(ctx):
     ns = dict(NS)
     exec(EXTRA_HEADER, ns)
     from pyanalyze.annotations import type_from_ast, type_from_runtime
-    for E in EXTRA:
+    for E in EXTRA + EXTRA_META:
         def go(fn):
             ctx_ = _rec_ctx(ns)
             try:
@@ -1425,8 +1797,9 @@ def eval_extra(ctx):
                 return v
             return (_strip_tv(v), n)
         if not (key(a) == key(s) == key(r)):
-            ctx.candidate({"expr": E}, "readings differ on %s: ast=%s str=%s rt=%s" % (E, a[0], s[0], r[0]), cls=None, conforms=True,
-                          stream="extra")
+            # outside the Lean term language: the class is named by the harness (metadata built by a call)
+            ctx.candidate({"expr": E}, "readings differ on %s: ast=%s str=%s rt=%s" % (E, a[0], s[0], r[0]),
+                          cls="annotatedCallMeta" if E in EXTRA_META else None, conforms=True, stream="extra")
 
 
 def _strip_tv(v):
@@ -1498,8 +1871,8 @@ def gen_all(ctx):
     rng = ctx.rng
     anns = exhaustive_terms()
     ctx.extra["exhaustive_part"] = "%d annotation expressions of depth <= 1" % len(anns)
-    anns += depth2_terms(rng, ctx.n(3000, 25000))
-    for _ in range(ctx.n(2500, 40000)):
+    anns += depth2_terms(rng, ctx.n(2400, 25000))
+    for _ in range(ctx.n(2000, 40000)):
         t = gen_term(rng, rng.choice([2, 2, 3]))
         r = rng.random()
         if r < 0.06:
@@ -1515,12 +1888,12 @@ def gen_all(ctx):
             out.append(t)
     sigs = small_headers()
     ctx.extra["exhaustive_part"] += "; %d def headers with <= 3 parameters" % len(sigs)
-    cap = ctx.n(500, 100000)
+    cap = ctx.n(350, 100000)
     if len(sigs) > cap:
         rng.shuffle(sigs)
         sigs = sigs[:cap]
         ctx.extra["exhaustive_part"] += " (sampled down to %d by the seed)" % cap
-    for _ in range(ctx.n(900, 9000)):
+    for _ in range(ctx.n(600, 9000)):
         sigs.append(random_header(rng, rng.choice([0, 1, 1, 2])))
     return out, sigs
 
@@ -1530,7 +1903,11 @@ def run(ctx, with_model=True):
     anns, sigs = gen_all(ctx)
     eval_ann(ctx, canns + anns, with_model)
     eval_sig(ctx, csigs + sigs, with_model)
+    mh = multi_headers(ctx.rng, ctx.n(12, 600))
+    eval_multi(ctx, mh, with_model, K=2)
+    eval_multi(ctx, mh[::ctx.n(16, 2)], with_model, K=3)
     eval_extra(ctx)
+    eval_methods(ctx)
 
 
 def run_impl_only(ctx):
@@ -1541,6 +1918,8 @@ def replay(ctx, data):
     case = data["case"]
     if "term" in case:
         eval_ann(ctx, [tt(case["term"])])
+    elif "header" in case and str(data.get("stream", "")).startswith("multi"):
+        eval_multi(ctx, [hdr_from_json(case["header"])], K=3)
     elif "header" in case:
         eval_sig(ctx, [hdr_from_json(case["header"])])
     else:
